@@ -30,7 +30,9 @@ Descs ==
               D("", "none", FALSE, FALSE, "A", TRUE, FALSE)}               \* component provider whose body includes A
         ELSE {})
 SecondDescs == {d \in Descs : d.ext = "" /\ d.inc = "" /\ ~d.z} \cup {D("A", "super", FALSE, FALSE, "", FALSE, FALSE)}
-Batches == {<<<<n, d>>>> : n \in Names, d \in Descs}
+\* the root with block a again, with other literal text of the same length (only as a single add of A)
+RootV2 == [D("", "def", FALSE, FALSE, "", FALSE, FALSE) EXCEPT !.v2 = TRUE]
+Batches == {<<<<n, d>>>> : n \in Names, d \in Descs} \cup {<<<<"A", RootV2>>>>}
            \cup {<<<<n, d>>, <<m, e>>>> : n \in Names, d \in Descs, m \in Names, e \in SecondDescs}
 SuffixSets == {{}, {".h"}}
 EndsWithH(n) == n = "C.h"
